@@ -174,6 +174,9 @@ type c11Reader struct {
 	b    []byte
 	cuts []int // absolute offsets at which a Read must stop; nil = no stops
 	step int   // > 0: at most step bytes per Read
+	// eofWithData: the last bytes are returned TOGETHER with io.EOF (as an
+	// HTTP/1.x body with Content-Length and iotest.DataErrReader do).
+	eofWithData bool
 }
 
 func (r *c11Reader) Read(p []byte) (int, error) {
@@ -203,6 +206,9 @@ func (r *c11Reader) Read(p []byte) (int, error) {
 	}
 	copy(p, r.b[:n])
 	r.b = r.b[n:]
+	if r.eofWithData && len(r.b) == 0 {
+		return n, io.EOF
+	}
 	return n, nil
 }
 
@@ -239,13 +245,18 @@ func c11Delivery(run *ev.Run, body []byte, whole c11Parse, splits bool) {
 	}
 	chk("bytewise", &c11Reader{b: body, step: 1})
 	chk("chunks-of-3", &c11Reader{b: body, step: 3})
+	chk("whole-eof-with-data", &c11Reader{b: body, eofWithData: true})
+	chk("chunks-of-3-eof-with-data", &c11Reader{b: body, step: 3, eofWithData: true})
 	if len(body) > 4096 {
 		chk("chunks-of-4096", &c11Reader{b: body, step: 4096})
 		chk("chunks-of-4095", &c11Reader{b: body, step: 4095})
+		chk("chunks-of-4096-eof-with-data", &c11Reader{b: body, step: 4096, eofWithData: true})
+		chk("chunks-of-5000-eof-with-data", &c11Reader{b: body, step: 5000, eofWithData: true})
 	}
 	if splits {
 		for i := 1; i < len(body); i++ {
 			chk(fmt.Sprintf("split-at %d", i), &c11Reader{b: body, cuts: []int{i}})
+			chk(fmt.Sprintf("split-at-eof-with-data %d", i), &c11Reader{b: body, cuts: []int{i}, eofWithData: true})
 		}
 		if len(body) <= 600 {
 			for i := 1; i < len(body); i++ {
@@ -363,6 +374,8 @@ func c11(tier string) int {
 	la := wh.LogCfg{Origin: logA(), Key: u.K1}
 	real4, _ := gen.Get(la, u.Main, 4, "plain")
 	realExt, _ := gen.Get(la, u.Main, 5, "ext")
+	real6k, _ := gen.Get(la, u.Main, 6, "pad6000")
+	real4k, _ := gen.Get(la, u.Main, 7, "pad4096")
 	var evals int64
 
 	// ---- generator side: round trip of written bodies.
@@ -441,7 +454,7 @@ func c11(tier string) int {
 		}
 	}
 	recC("", 0)
-	cps = append(cps, real4, realExt)
+	cps = append(cps, real4, realExt, real6k, real4k)
 	run.Set("roundtrip_old_sizes", len(olds))
 	run.Set("roundtrip_proofs", len(proofs))
 	run.Set("roundtrip_checkpoints", len(cps))
@@ -579,7 +592,7 @@ func c11(tier string) int {
 	// ---- 1-edit neighbourhood of three valid bodies.
 	seeds := [][]byte{c10Body(4, u.Main.Proof(4, 6), real4), c10Body(0, nil, realExt), c10Body(1<<40, proofs[3], []byte("x\n")), c10Body(10, proofs[1], []byte("x\n"))}
 	var nb int64
-	for _, s := range append(append([][]byte{}, seeds...), c10Body(1<<63, proofs[65+4*64-1], realExt), c10Body(3, proofs[64], real4)) {
+	for _, s := range append(append([][]byte{}, seeds...), c10Body(1<<63, proofs[65+4*64-1], realExt), c10Body(3, proofs[64], real4), c10Body(2, proofs[2], real6k), c10Body(2, nil, real4k)) {
 		c11Judge(run, s, "delivery-seed")
 		nb++
 	}
@@ -595,7 +608,7 @@ func c11(tier string) int {
 	run.Set("evaluations", evals)
 	run.Set("distinct_nontrivial", c11Distinct())
 	run.Set("exhaustive", true)
-	run.Set("rule", fmt.Sprintf("generator side: old sizes {0,1,9,10,99,2^32-1,2^32,2^63-1,2^63,2^64-1} x proofs (every length 0..64 of 1-, 32-, 33-, 63- and 64-byte hashes; all lists of <= %d hashes with lengths {1,2,3,31,32,33,63,64} x 4 boundary fillings) x checkpoint bytes (all strings of <= 4 chunks over {x, LF, LFLF, CRLF, 0xff, a signature-like line, empty} + real checkpoints), written by the harness writer and in the shape of cmd/feedbastion; parseBody must return exactly what was written; Proof.Marshal/Unmarshal over every proof list incl. the empty one. Refusal side: ALL strings of <= %d tokens over a 12-token alphabet and the complete 1-edit neighbourhood (every prefix, single-byte deletion, insertion of 18 tokens at every position, every single-bit flip) of four valid bodies, judged by a reference parser with classes accept / must-refuse (no well-formed old-size line, proof line not base64, ends before the blank separator) / unspecified; refusals must return zero values. Retention: the result returned for one body is compared again after the next body was parsed. Delivery: every body above is also read one byte at a time and in 3-byte pieces (4095/4096-byte pieces when longer than 4096 bytes), and six valid bodies (incl. 64 x 64-byte and 64 x 32-byte proofs) additionally with one short read at every offset and, when <= 600 bytes, two short reads at every pair of offsets; the reading must not depend on it. distinct_nontrivial = number of distinct bodies/lists evaluated (token strings that concatenate to the same bytes are counted once)", maxList, L))
+	run.Set("rule", fmt.Sprintf("generator side: old sizes {0,1,9,10,99,2^32-1,2^32,2^63-1,2^63,2^64-1} x proofs (every length 0..64 of 1-, 32-, 33-, 63- and 64-byte hashes; all lists of <= %d hashes with lengths {1,2,3,31,32,33,63,64} x 4 boundary fillings) x checkpoint bytes (all strings of <= 4 chunks over {x, LF, LFLF, CRLF, 0xff, a signature-like line, empty} + real checkpoints), written by the harness writer and in the shape of cmd/feedbastion; parseBody must return exactly what was written; Proof.Marshal/Unmarshal over every proof list incl. the empty one. Refusal side: ALL strings of <= %d tokens over a 12-token alphabet and the complete 1-edit neighbourhood (every prefix, single-byte deletion, insertion of 18 tokens at every position, every single-bit flip) of four valid bodies, judged by a reference parser with classes accept / must-refuse (no well-formed old-size line, proof line not base64, ends before the blank separator) / unspecified; refusals must return zero values. Retention: the result returned for one body is compared again after the next body was parsed. Delivery: every body above is also read one byte at a time and in 3-byte pieces, whole and in pieces with the final bytes arriving together with io.EOF (4095/4096-byte pieces when longer than 4096 bytes), and eight valid bodies (incl. 64 x 64-byte and 64 x 32-byte proofs, 4096- and 6000-byte checkpoints) additionally with one short read at every offset and, when <= 600 bytes, two short reads at every pair of offsets; the reading must not depend on it. distinct_nontrivial = number of distinct bodies/lists evaluated (token strings that concatenate to the same bytes are counted once)", maxList, L))
 	run.Assumption("leniencies the property does not name (CRLF line ends, leading zeros, non-canonical base64 padding bits, lines longer than 4096 bytes) are classified 'unspecified': executed, required to return zero values on refusal, otherwise not judged")
 	return run.Finish()
 }
